@@ -415,30 +415,49 @@ theorem resourceNameOv_good (fs : Fs) (w : OvView) (hw : OvWf w)
         subst h
         exact ⟨false, segs, hsn, hs, by simp [leadOf]⟩
 
+theorem findResourcePathOv_some (fs : Fs) (w : OvView) (hp : w.v.pkg = true) (name p : Text)
+    (h : findResourcePathOv fs w name = some p) : p = pkgFilename fs w name ∧ pkgIsDir fs w name = false := by
+  unfold findResourcePathOv at h
+  simp only [hp, if_true] at h
+  by_cases h1 : pkgRaises fs w name = true
+  · rw [if_pos h1] at h; simp at h
+  rw [if_neg h1] at h
+  by_cases h2 : (pkgExists fs w name && !pkgIsDir fs w name) = true
+  · rw [if_pos h2] at h
+    simp only [Option.some.injEq] at h
+    simp only [Bool.and_eq_true, Bool.not_eq_true'] at h2
+    exact ⟨h.symm, h2.2⟩
+  · rw [if_neg h2] at h; simp at h
+
 theorem mem_candidatesOv (fs : Fs) (w : OvView) (hp : w.v.pkg = true) (n : Text) (c : Cand)
     (h : c ∈ candidatesOv fs w n) :
-    c.path = pkgFilename fs w n ∨ ∃ e ∈ w.v.encs, ∃ x ∈ e.2, c.path = pkgFilename fs w (n ++ x) := by
-  unfold candidatesOv findResourcePathOv at h
-  simp only [hp, if_true] at h
+    (c.path = pkgFilename fs w n ∧ pkgIsDir fs w n = false) ∨
+    ∃ e ∈ w.v.encs, ∃ x ∈ e.2, c.path = pkgFilename fs w (n ++ x) ∧ pkgIsDir fs w (n ++ x) = false := by
+  unfold candidatesOv at h
   rcases List.mem_append.mp h with m | m
   · left
-    split at m
-    · rename_i p hq
-      simp only [List.mem_singleton] at m
+    cases hf : findResourcePathOv fs w n with
+    | none => simp [hf] at m
+    | some p =>
+      simp only [hf, List.mem_singleton] at m
       subst m
-      split at hq
-      · simpa using hq.symm
-      · simp at hq
-    · simp at m
+      exact findResourcePathOv_some fs w hp n p hf
   · right
     obtain ⟨⟨e, exts⟩, he, hc⟩ := List.mem_flatMap.mp m
     obtain ⟨x, hx, hf⟩ := List.mem_filterMap.mp hc
     refine ⟨(e, exts), he, x, hx, ?_⟩
-    split at hf
-    · simp only [Option.map_some, Option.some.injEq] at hf
+    cases hq : findResourcePathOv fs w (n ++ x) with
+    | none => simp [hq] at hf
+    | some p =>
+      simp only [hq, Option.map_some, Option.some.injEq] at hf
       subst hf
-      rfl
-    · simp at hf
+      exact findResourcePathOv_some fs w hp (n ++ x) p hq
+
+/-- the file a package-relative view opens is never a directory (what `resource_isdir` says of a name is what the
+file system says of the path `resource_filename` gives for it) -/
+theorem pkgIsDir_filename (fs : Fs) (w : OvView) (name : Text) : pkgIsDir fs w name = fs.isDir (pkgFilename fs w name) := by
+  unfold pkgIsDir pkgFilename
+  cases ovFirst fs w.ovs name <;> rfl
 
 /-- **Extended containment** (package-relative view with asset overrides): whatever `static_view.__call__` opens
 lies strictly inside the static root, or inside what one of the declared overrides was declared with. -/
@@ -453,9 +472,6 @@ theorem staticViewOv_where (fs : Fs) (w : OvView) (hw : OvWf w)
   | redirect => simp [hn] at h
   | name n =>
     simp only [hn] at h
-    by_cases h2 : raisesLater fs w n = true
-    · rw [if_pos h2] at h; simp at h
-    rw [if_neg h2] at h
     obtain ⟨lead, rcs, hne, hpr, hname⟩ := resourceNameOv_good fs w hw hroot slash segs n hn
     rw [findBestMatch_eq_find] at h
     cases hf : (sortBySize fs.size (candidatesOv fs w n)).find? (accepts ae) with
@@ -471,12 +487,73 @@ theorem staticViewOv_where (fs : Fs) (w : OvView) (hw : OvWf w)
           obtain ⟨_, _, e1, _, _⟩ := h
           exact e1.symm
       rw [hpath]
-      rcases mem_candidatesOv fs w hw.1 n c hm with e | ⟨e, he, x, hx, ex⟩
+      rcases mem_candidatesOv fs w hw.1 n c hm with ⟨e, _⟩ | ⟨e, he, x, hx, ex, _⟩
       · rw [e, hname]
         exact pkgFilename_where fs w hw lead rcs hne hpr
       · obtain ⟨x1, x2⟩ := hw.2.2.2.2.1 e he x hx
         obtain ⟨rcs', hne', hpr', hn'⟩ := goodName_ext lead (dcomps w.v) rcs hne hpr x x1 x2
         rw [ex, hname, hn']
         exact pkgFilename_where fs w hw lead rcs' hne' hpr'
+
+/-- a package-relative view with the override layer never hands a directory to `open()` -/
+theorem staticViewOv_not_isADirectory (fs : Fs) (w : OvView) (hp : w.v.pkg = true) (ae : Option (List Enc)) (slash : Bool)
+    (segs : List Seg) (p : Text) : staticViewOv fs w ae slash segs ≠ .isADirectory p := by
+  intro h
+  unfold staticViewOv at h
+  cases hn : resourceNameOv fs w slash segs with
+  | notFound => simp [hn] at h
+  | redirect => simp [hn] at h
+  | name n =>
+    simp only [hn] at h
+    rw [findBestMatch_eq_find] at h
+    cases hf : (sortBySize fs.size (candidatesOv fs w n)).find? (accepts ae) with
+    | none => simp [hf] at h
+    | some c =>
+      simp only [hf] at h
+      have hm : c ∈ candidatesOv fs w n := (mem_sortBySize _ _ _).mp (List.mem_of_find?_eq_some hf)
+      have hnd : fs.isDir c.path = false := by
+        rcases mem_candidatesOv fs w hp n c hm with ⟨e, hd⟩ | ⟨_, _, x, _, e, hd⟩
+        · rw [e, ← pkgIsDir_filename]; exact hd
+        · rw [e, ← pkgIsDir_filename]; exact hd
+      simp [hnd] at h
+
+/-- the view with the override layer answers 404, a redirect, or a file — nothing else -/
+theorem staticViewOv_cases (fs : Fs) (w : OvView) (hp : w.v.pkg = true) (ae : Option (List Enc)) (slash : Bool)
+    (segs : List Seg) :
+    staticViewOv fs w ae slash segs = .notFound ∨ staticViewOv fs w ae slash segs = .redirect ∨
+      ∃ p e b, staticViewOv fs w ae slash segs = .file p e b := by
+  have hnd := staticViewOv_not_isADirectory fs w hp ae slash segs
+  unfold staticViewOv at hnd ⊢
+  cases hn : resourceNameOv fs w slash segs with
+  | notFound => exact .inl rfl
+  | redirect => exact .inr (.inl rfl)
+  | name n =>
+    simp only [hn] at hnd ⊢
+    cases hf : findBestMatch ae (sortBySize fs.size (candidatesOv fs w n)) with
+    | none => exact .inl rfl
+    | some c =>
+      simp only [hf] at hnd ⊢
+      by_cases hd : fs.isDir c.path = true
+      · exact absurd (by simp [hd]) (hnd c.path)
+      · exact .inr (.inr ⟨c.path, c.enc, decide ((sortBySize fs.size (candidatesOv fs w n)).length > 1), by simp [hd]⟩)
+
+theorem staticViewOv_file_not_dir (fs : Fs) (w : OvView) (hp : w.v.pkg = true) (ae : Option (List Enc)) (slash : Bool)
+    (segs : List Seg) (p : Text) (e : Option Enc) (b : Bool) (h : staticViewOv fs w ae slash segs = .file p e b) :
+    fs.isDir p = false := by
+  unfold staticViewOv at h
+  cases hn : resourceNameOv fs w slash segs with
+  | notFound => simp [hn] at h
+  | redirect => simp [hn] at h
+  | name n =>
+    simp only [hn] at h
+    cases hf : findBestMatch ae (sortBySize fs.size (candidatesOv fs w n)) with
+    | none => simp [hf] at h
+    | some c =>
+      simp only [hf] at h
+      by_cases hd : fs.isDir c.path = true
+      · simp [hd] at h
+      · rw [if_neg hd] at h
+        simp only [Outcome.file.injEq] at h
+        rw [← h.1]; simpa using hd
 
 end Pyr.Static
